@@ -13,6 +13,7 @@ import hashlib
 import random
 
 from dsim.kernel import make_bench, cached_bench, Violations
+from models.usb2_wire import gen_idle_data
 from models import usb2
 from models.usb2 import UTMIHost, token_packet, data_packet, sof_packet, handshake_packet
 
@@ -164,6 +165,7 @@ def gen(rng, tier, index):
     for o in ops:
         if o["op"] == "control" and o["setup"].startswith("8006") and rng.random() < p_lost:
             o["lose_data"] = [rng.randint(0, 2)]
+    cfg["idle_data"] = gen_idle_data(rng)
     return {"engine": ENGINE, "config": cfg, "ops": ops}
 
 
@@ -459,7 +461,7 @@ def run(scn):
         raise RuntimeError("scenario error: tx_valid pattern is never valid")
     total_tx = sum(cfg["tx_msgs"])
     drain_budget = 3 * total_tx * (-(-period // active) + 2) + (total_tx // mps + len(cfg["tx_msgs"]) + 8) * (12 * mps + 200) + 500
-    host = UTMIHost(script, byte_period=cfg["byte_period"], pre=cfg["pre"], post=cfg["post"],
+    host = UTMIHost(script, idle_data=cfg.get("idle_data"), byte_period=cfg["byte_period"], pre=cfg["pre"], post=cfg["post"],
                     txready=(cfg["txready"] if cfg["txready"] == "always" else tuple(cfg["txready"])))
     per = (80 + 16) * 6 + 4 * timeout + 100 + 3 * mps
     max_cycles = 3000 + sum(op.get("n", 0) + per * (10 if op["op"] == "control" else 6) for op in ops) + drain_budget + 4 * per
